@@ -289,7 +289,9 @@ func decodeAll(r io.Reader) (out []*cedar.Policy, err error, panicked any) {
 
 func compare(t *core.T, d doc, exp expected, r *schedReader, sched string) {
 	got, err, pn := decodeAll(r)
-	in := func() string { return fmt.Sprintf("document %s (%d bytes), reader schedule %s [reads: %s]", d.name, len(d.src), sched, strings.Join(r.trace, ",")) }
+	in := func() string {
+		return fmt.Sprintf("document %s (%d bytes), reader schedule %s [reads: %s]", d.name, len(d.src), sched, strings.Join(r.trace, ","))
+	}
 	if pn != nil {
 		if _, ok := pn.(livelock); ok {
 			t.Fail("reader-livelock:"+kind(d), in(), "bounded number of reads", fmt.Sprintf("%d reads", r.reads))
